@@ -439,7 +439,9 @@ func sameLineStructure(a, b string) bool {
 		return false
 	}
 	for i := range al {
-		if strings.TrimLeft(al[i], " \t") != strings.TrimLeft(bl[i], " \t") {
+		// indentation and the alignment column of trailing comments are go/printer's business (they depend
+		// on which comment an alignment section starts with), the property is about lines
+		if strings.Join(strings.Fields(al[i]), " ") != strings.Join(strings.Fields(bl[i]), " ") {
 			return false
 		}
 	}
